@@ -404,7 +404,14 @@ def exc_site(exc: BaseException | None) -> str:
     for fs in traceback.extract_tb(exc.__traceback__):
         if fs.filename.startswith(repo):
             site = f"{fs.filename[len(repo) + 1:]}:{fs.name}"
-    return f"{type(exc).__name__}@{site}"
+    extra = ""
+    if type(exc).__name__ == "IntegrityError":
+        # which constraint: one site can break several (e.g. a duplicate name vs. a duplicate child row)
+        import re
+        m = re.search(r"constraint failed: ([A-Za-z_.\" ,]+?)(?:\n|$|\[)", str(exc))
+        if m:
+            extra = "(" + m.group(1).strip().replace('"', "").replace(" ", "") + ")"
+    return f"{type(exc).__name__}@{site}{extra}"
 
 
 def diff_state(before: dict, after: dict) -> list[str]:
